@@ -341,9 +341,33 @@ def is_(I, a, b):
     raise OutsideSubset(f"`is` on {a!r} / {b!r}")
 
 
+def symbolic_key(x):
+    """does equality of this dictionary key depend on symbolic content (a symbolic value, or a tuple holding one)?"""
+    if isinstance(x, Sym):
+        return True
+    if isinstance(x, tuple):
+        return any(symbolic_key(y) for y in x)
+    return False
+
+
+def dict_find(I, d, k):
+    """the key of d that equals k (decided along the path), or None: keys with symbolic content are compared with ==, not by identity"""
+    keys = [kk for kk in d.keys()]
+    if not symbolic_key(k) and not any(symbolic_key(kk) for kk in keys):
+        try:
+            return k if k in d else None
+        except TypeError:
+            raise PyRaise(ExcValue("TypeError", ("unhashable",)))
+    conds = [py_eq(I, k, kk) for kk in keys]
+    j = I.ctx.choose(conds + [neg(or_any(conds))]) if keys else 0
+    return keys[j] if j < len(keys) else None
+
+
 def contains(I, container, x, node):
     c = sv(I.force(container))
     x = I.force(x)
+    if isinstance(c, dict) and (symbolic_key(x) or any(symbolic_key(kk) for kk in c.keys())) and not isinstance(x, Sym):
+        return or_any([py_eq(I, x, k) for k in c.keys()])
     if isinstance(c, (list, tuple, set, frozenset)):
         return or_any([py_eq(I, x, y) for y in c])
     if isinstance(c, dict):
@@ -522,6 +546,15 @@ def getitem(I, o, k, node):
             j = I.ctx.choose([idx == i for i in range(len(o))])
             return o[j]
         raise PyRaise(ExcValue("TypeError", ("indices must be integers",)))
+    if isinstance(o, dict) and isinstance(k, tuple) and (symbolic_key(k) or any(symbolic_key(x) for x in o.keys())):
+        hit = dict_find(I, o, k)
+        if hit is not None:
+            return o[hit]
+        if getattr(o, "factory", None) is not None:
+            v = I.call(o.factory, [], {})
+            o[k] = v
+            return v
+        raise PyRaise(ExcValue("KeyError", (k,)))
     if isinstance(o, dict):
         if isinstance(k, Sym):
             keys = list(o.keys())
@@ -678,7 +711,12 @@ def setitem(I, o, k, v, node):
             o.sym = Sym(z3.Concat(z3.Extract(st, z3.IntVal(0), idx), z3.Unit(x), z3.Extract(st, idx + 1, n - idx - 1)), "seq", o.sym.elem)
         return
     if isinstance(o, dict):
-        o[dict_key(I, k, node)] = v
+        kk = dict_key(I, k, node)
+        if symbolic_key(kk) or any(symbolic_key(x) for x in o.keys()):      # an equal key (decided along the path) is overwritten, not added again
+            hit = dict_find(I, o, kk)
+            if hit is not None:
+                kk = hit
+        o[kk] = v
         return
     if isinstance(o, SymDict):
         return o.setitem(I, k, v)
